@@ -144,94 +144,165 @@ def weyl_invariants(rep):
 
 
 # ---------------------------------------------------------------------------------------------
-# Gram-Schmidt sign rule
+# Gram-Schmidt sign rule (decided on the interpreted tetrad, not on the statement shapes)
 # ---------------------------------------------------------------------------------------------
-def additive_terms(node, sign=1):
-    if isinstance(node, ast.BinOp) and isinstance(node.op, (ast.Add, ast.Sub)):
-        return additive_terms(node.left, sign) + additive_terms(
-            node.right, sign if isinstance(node.op, ast.Add) else -sign)
-    if isinstance(node, ast.UnaryOp) and isinstance(node.op, ast.USub):
-        return additive_terms(node.operand, -sign)
-    return [(sign, node)]
+def _coefficient(vec, atom):
+    """Split the vector of polynomials `vec` as atom*w + rest; None if the atom occurs with an
+    exponent other than 1."""
+    w, rest = {}, {}
+    for idx, p in vec.c.items():
+        wt, rt = {}, {}
+        for mono, c in p.t.items():
+            e = dict(mono).get(atom)
+            if e is None:
+                rt[mono] = c
+            elif e == 1:
+                wt[tuple((a_, x) for a_, x in mono if a_ != atom)] = c
+            else:
+                return None
+        if wt:
+            w[idx] = P(wt)
+        if rt:
+            rest[idx] = P(rt)
+    return Arr(vec.shape, vec.var, w), Arr(vec.shape, vec.var, rest)
 
 
-def projection_term(node):
-    """recognise  ip(X, Y) * Z  ->  (ipname, X, Y, Z) (source text)"""
-    if isinstance(node, ast.BinOp) and isinstance(node.op, ast.Mult):
-        for call, vec in ((node.left, node.right), (node.right, node.left)):
-            if isinstance(call, ast.Call) and unparse(call.func) in (
-                    "self.vector_inner_product4", "self.vector_inner_product3") \
-                    and len(call.args) == 2:
-                return (unparse(call.func)[5:], unparse(call.args[0]), unparse(call.args[1]),
-                        unparse(vec))
-    return None
+def _same(a, b):
+    return a.shape == b.shape and a.c == b.c
+
+
+def _neg(a):
+    return a.map(lambda p: -p)
 
 
 def gram_schmidt(rep):
+    """tetrad_base is interpreted with the inner products and norms replaced by fresh symbols
+    <ip#n>, <norm#n> (arguments recorded).  Every normalised vector u/|u| then reads
+    u = seed + sum_n ip#n * w_n; the rule demands, for every projection made while building u:
+    w_n = -g(e,e) * e for a leg e already normalised (timelike: +e, spacelike: -e), the other
+    argument of ip#n being the seed or the running vector, and that every leg normalised
+    before (and the timelike leg when the 4-dimensional product is used) is projected out."""
     S = rep.sources
     fn = S.function(CORE, "AurelCore.tetrad_base")
-    top = [st for st in fn.body if isinstance(st, ast.If)]
-    if not top:
-        raise AnalysisError("tetrad_base: branch on self.tetrad not found")
-    branch = top[-1]
     count = 0
-    for label, body, timelike in (("quasi-Kinnersley", branch.body, set()),
-                                  ("fluid", branch.orelse, None)):
-        # which names are unit vectors so far; e0 of the fluid branch is the timelike one
-        normalised = {}   # name -> True (unit vector)
-        tl = set()
-        for st in body:
-            if not (isinstance(st, ast.Assign) and len(st.targets) == 1
-                    and isinstance(st.targets[0], ast.Name)):
+    for label, tetrad in (("quasi-Kinnersley", "quasi-Kinnersley"), ("fluid", "other")):
+        events = []
+
+        def ip(it, a, b, _ev=events, dim=0):
+            n = len(_ev)
+            _ev.append(("ip", n, it.to_arr(a), it.to_arr(b), dim))
+            return Arr.scalar(P.atom(f"ip#{n}"))
+
+        def norm(it, u, _ev=events, dim=0):
+            n = len(_ev)
+            _ev.append(("norm", n, it.to_arr(u), None, dim))
+            return Arr.scalar(P.atom(f"norm#{n}"))
+        todo = [{"tetrad": tetrad}]
+        res = it = None
+        while todo:
+            cfg = todo.pop()
+            del events[:]
+            it = Interp(S, cfg)
+            it.overrides = {
+                "vector_inner_product3": lambda i_, a, b: ip(i_, a, b, dim=3),
+                "vector_inner_product4": lambda i_, a, b: ip(i_, a, b, dim=4),
+                "norm3": lambda i_, u: norm(i_, u, dim=3),
+                "norm4": lambda i_, u: norm(i_, u, dim=4)}
+            try:
+                res = it.run_method("tetrad_base")
+                break
+            except NeedConfig as q:
+                for ans in (True, False):
+                    c2 = dict(cfg)
+                    c2[q.q] = ans
+                    todo.append(c2)
+            except (Unsupported, PathEnds) as e:
+                raise AnalysisError(f"tetrad_base[{label}]: cannot be interpreted: {e}")
+        if res is None or not isinstance(res, (list, tuple)) or len(res) != 4:
+            raise AnalysisError(f"tetrad_base[{label}]: four vectors expected")
+        for pb in it.problems:
+            rep.violation(pb.rule, f"{CORE}::AurelCore.tetrad_base[{label}]", pb.message,
+                          node=pb.node, file=CORE)
+        e0 = it.to_arr(res[0])
+        timelike = [e0] if e0.owner is not None or any(
+            "uup4" in a_ for p_ in e0.c.values() for a_ in p_.atoms()) else []
+        legs = []            # normalised spacelike legs so far: (Arr, event number)
+        pending = []
+        step = 0
+        for ev in events:
+            if ev[0] == "ip":
+                pending.append(ev)
                 continue
-            tgt = st.targets[0].id
-            v = st.value
-            if unparse(v) == 'self["uup4"]' or unparse(v) == "self['uup4']":
-                normalised[tgt] = True
-                tl.add(tgt)
-                continue
-            if isinstance(v, ast.Call) and unparse(v.func) == "maths.safe_division" \
-                    and len(v.args) == 2 and isinstance(v.args[1], ast.Call) \
-                    and unparse(v.args[1].func) in ("self.norm3", "self.norm4") \
-                    and unparse(v.args[1].args[0]) == unparse(v.args[0]):
-                normalised[tgt] = True
-                continue
-            terms = additive_terms(v)
-            projs = [(s, projection_term(t)) for s, t in terms]
-            if not any(p for _s, p in projs):
-                continue
-            key = f"{CORE}::AurelCore.tetrad_base::{label}::{tgt}"
-            base = [unparse(t) for s, t in terms if projection_term(t) is None]
-            ok = len(base) == 1
+            _k, n, u, _x, dim = ev
+            step += 1
+            key = f"{CORE}::AurelCore.tetrad_base::{label}::leg{step}"
             msgs = []
-            onto = []
-            for s, p in projs:
-                if p is None:
+            rest = u
+            partial = []
+            projected = []
+            for _k2, m, a, b, _d in pending:
+                sp = _coefficient(rest, f"ip#{m}")
+                if sp is None:
+                    msgs.append(f"projection coefficient ip#{m} enters non-linearly")
                     continue
-                ip, X, Y, Z = p
-                vec = X if X == Z else (Y if Y == Z else None)
-                other = Y if vec == X else X
+                w, rest = sp
+                partial.append((m, a, b, w))
+            for m, a, b, w in partial:
+                if not w.c:
+                    msgs.append("an inner product computed for this leg is not used in it")
+                    continue
+                vec = other = None
+                sign = 0
+                for x, y in ((a, b), (b, a)):
+                    if _same(w, x):
+                        vec, other, sign = x, y, 1
+                    elif _same(w, _neg(x)):
+                        vec, other, sign = x, y, -1
+                    if vec is not None:
+                        break
                 if vec is None:
-                    ok = False
-                    msgs.append(f"projection coefficient <{X},{Y}> multiplies {Z}")
+                    msgs.append("a projection coefficient <X,Y> multiplies a vector that is "
+                                "neither X nor Y")
                     continue
-                onto.append(vec)
-                if base and other != base[0]:
-                    ok = False
-                    msgs.append(f"projection of {other} subtracted from {base[0]}")
-                want = 1 if vec in tl else -1
-                if s != want:
-                    ok = False
-                    msgs.append(f"projection on {'timelike' if vec in tl else 'spacelike'} "
-                                f"unit vector {vec} enters with sign {'+' if s > 0 else '-'}; "
-                                f"g({vec},{vec}) = {-1 if vec in tl else 1} requires "
+                is_t = any(_same(vec, t) for t in timelike)
+                is_s = any(_same(vec, l_) for l_, _n in legs)
+                if not (is_t or is_s):
+                    msgs.append("projection onto a vector that is not normalised at this "
+                                "point")
+                    continue
+                projected.append(vec)
+                want = 1 if is_t else -1
+                if sign != want:
+                    msgs.append(f"projection on a {'timelike' if is_t else 'spacelike'} unit "
+                                f"vector enters with sign {'+' if sign > 0 else '-'}; "
+                                f"g(e,e) = {-1 if is_t else 1} requires "
                                 f"{'+' if want > 0 else '-'}")
-                if vec not in normalised:
-                    ok = False
-                    msgs.append(f"{vec} is not a normalised vector at this point")
-            count += 1
-            rep.check(ok, "gram-schmidt", key, "; ".join(msgs) or "malformed step", node=st,
-                      detail={"projects_onto": onto})
+                # the projected vector: the seed or the running (partly orthogonalised) one
+                run = rest
+                okother = _same(other, rest)
+                for m2, _a2, _b2, w2 in partial:
+                    if okother:
+                        break
+                    run = it.add(run, it.mul(Arr.scalar(P.atom(f"ip#{m2}")), w2, None),
+                                 False, None)
+                    okother = _same(other, run)
+                if not okother:
+                    msgs.append("the inner product is not taken with the vector being "
+                                "orthogonalised")
+            need = [l_ for l_, _n in legs] + (timelike if dim == 4 else [])
+            missing = [v for v in need if not any(_same(v, q) for q in projected)]
+            if missing and not msgs:
+                msgs.append(f"{len(missing)} of the {len(need)} legs normalised before are "
+                            "not projected out of this one")
+            if any(f"ip#{m}" in a_ for p_ in rest.c.values() for a_ in p_.atoms()
+                   for m in [q[1] for q in pending]):
+                msgs.append("seed still depends on a projection coefficient")
+            if pending or legs or timelike:
+                count += 1
+                rep.check(not msgs, "gram-schmidt", key, "; ".join(msgs) or "malformed step",
+                          node=fn, file=CORE, detail={"projections": len(partial)})
+            legs.append((it.mul(u, Arr.scalar(P.atom(f"norm#{n}", -1)), None), n))
+            pending = []
     if count < 5:
         raise AnalysisError(f"tetrad_base: only {count} Gram-Schmidt steps recognised")
 
